@@ -41,7 +41,7 @@ type c17Site struct {
 
 var c17Sites = []c17Site{
 	{"client", "deadline", 0}, {"client", "deadline", 1}, {"client", "deadline", 2},
-	{"client", "read", 0}, {"client", "read", 1}, {"client", "read", 2},
+	{"client", "read", 0}, {"client", "read", 1}, {"client", "read", 2}, {"client", "read", 3}, {"client", "read", 4},
 	{"client", "write", 0}, {"client", "write", 1}, {"client", "close", 0},
 	{"dial", "dial", 0},
 	{"covert", "deadline", 0}, {"covert", "deadline", 1},
@@ -98,7 +98,7 @@ func TestVerifC17(t *testing.T) {
 		Runs:     map[string]int{"quick": 10000, "thorough": 600000},
 		Real:     []string{"cmd/application handleNewTCPConn incl. both generalizeErr call paths and every log statement", "pkg/station/lib Proxy / halfPipe / tunnelStats summaries / generalizeErr", "transports (obfs4 server handshake I/O on the client connection)", "ingest pipeline log lines (registration path)", "pkg/station/log level filtering at the default level"},
 		Stub:     []string{"TCP connections with fault plans (simnet; errors shaped like the net package's, whose text embeds both endpoints)", "covert echo host, liveness table, detector recorder", "stdout/stderr/std logger are redirected to a capture file in TestMain before any logger exists"},
-		Rule: "enumerated: outcome class {no registration, no transport, found via min / prefix / obfs4, transport error, connecting transport whose Connect fails with one of 7 DTLS-shaped errors, connecting transport relayed} x client family {IPv4, IPv6, v4-mapped} x PROXY-header flag of the registration (relayed outcomes) x fault site (17 operation sites on the client connection, the dial and the covert connection) x every error shape of that operation kind (read 13, write 12, close 4, deadline 3, dial 8), plus the fault-free runs: all single faults; random: pairs of faults, registration-path events (forbidden covert, live phantom, duplicates, sweep). " +
+		Rule: "enumerated: outcome class {no registration, no transport, found via min / prefix / obfs4, transport error, connecting transport whose Connect fails with one of 7 DTLS-shaped errors, connecting transport relayed} x client family {IPv4, IPv6, v4-mapped} x PROXY-header flag of the registration (relayed outcomes) x fault site (19 operation sites on the client connection, the dial and the covert connection) x every error shape of that operation kind (read 13, write 12, close 4, deadline 3, dial 8), plus the fault-free runs: all single faults; random: pairs of faults, registration-path events (forbidden covert, live phantom, duplicates, sweep). " +
 			"non-trivial = the planned fault fired (or fault-free found/relay run); distinct = (outcome, family, fault plan, schedule)",
 		Assume: []string{"LOG_CLIENT_IP unset, default log level", "searched forms: dotted IPv4, RFC 5952 and fully expanded IPv6, with or without brackets/port"},
 	})
@@ -255,9 +255,17 @@ func c17Scenario(r *sim.Run) {
 				r.Fail("harness/c17-flight", "%v", err)
 				return
 			}
+			big := tp.Bool("big-chunk")
 			send = func(h *simnet.Conn) {
 				stWriteSegments(h, append(fl, []byte("application data 1")...), []int{10}, nil)
 				stReadN(h, 18, 20*time.Second)
+				if big {
+					// one segment larger than the relay's 32 KiB buffer: a relay Read returns a full
+					// buffer (possibly together with a planned error)
+					h.Write(bytes.Repeat([]byte("B"), 40000))
+					stReadN(h, 40000, 20*time.Second)
+					return
+				}
 				h.Write([]byte("application data 2"))
 				stReadN(h, 18, 20*time.Second)
 			}
